@@ -192,6 +192,9 @@ def normalise(modname, tree):
         return done
     t = {q: (v['locals'] if isinstance(v, dict) else v) for q, v in t0.items()}
     exprs = {q: set(v.get('exprs', ())) for q, v in t0.items() if isinstance(v, dict)}
+    k = inline_helpers(modname, tree, set(t), {q: set(v.get('nested', ())) for q, v in t0.items() if isinstance(v, dict) and 'nested' in v})
+    if k:
+        done['(calls to helpers the pinned tree does not have, expanded in place)'] = k
     for qname, fn in outer_functions(tree):
         canon = t.get(qname)
         if canon is None:
@@ -344,3 +347,321 @@ def c_normalise(facts):
             ren(d)
             done['%s:%s' % (build, d['name'])] = mp
     return done
+
+
+# ---------------------------------------------------------------------------------------------------- helpers a refactoring extracted
+class _Inliner:
+    """Calls to functions that the pinned tree does not have (a helper extracted by a refactoring: a new module-level function, or a new
+    method called through `self.` / the class name) are expanded at the call site inside the functions the pinned tree does have, so that
+    the rules see the code where it used to be.  Supported helper shapes: `return E` (expression helper, usable anywhere); statements
+    without a return value, guard-style early `return`s allowed (call used as a statement); statements followed by one final `return E`
+    (call used as the whole right-hand side of an assignment, as a returned value, or as a statement).  Anything else is left as a call."""
+    def __init__(self, modname, tree, known):
+        self.known = known                      # qualified names of the pinned module
+        self.funcs, self.methods = {}, {}       # new helpers: name -> FunctionDef ; (class, name) -> (FunctionDef, kind)
+        for n in tree.body:
+            if isinstance(n, ast.FunctionDef) and n.name not in known:
+                self.funcs[n.name] = n
+            elif isinstance(n, ast.ClassDef):
+                for m in n.body:
+                    if isinstance(m, ast.FunctionDef) and '%s.%s' % (n.name, m.name) not in known:
+                        kind = 'instance'
+                        for d in m.decorator_list:
+                            if isinstance(d, ast.Name) and d.id in ('staticmethod', 'classmethod'):
+                                kind = d.id
+                            elif isinstance(d, ast.Name) and d.id == 'property':
+                                kind = 'property'
+                        self.methods[(n.name, m.name)] = (m, kind)
+        self.count = 0
+        self.nested = {}
+        self.known_nested = {}
+
+    def helper_for(self, call, cls):
+        """-> (FunctionDef, bound first argument or None) when the call targets a new helper"""
+        f = call.func
+        if isinstance(f, ast.Name) and f.id in self.nested:
+            return self.nested[f.id], None
+        if isinstance(f, ast.Name) and f.id in self.funcs:
+            return self.funcs[f.id], None
+        if isinstance(f, ast.Attribute) and isinstance(f.value, ast.Name) and cls is not None:
+            if f.value.id in ('self', cls) and (cls, f.attr) in self.methods:
+                m, kind = self.methods[(cls, f.attr)]
+                if kind == 'staticmethod':
+                    return m, None
+                if kind == 'instance' and f.value.id == 'self':
+                    return m, ast.Name(id='self', ctx=ast.Load())
+        return None, None
+
+    @staticmethod
+    def simple(e):
+        if isinstance(e, (ast.Name, ast.Constant)):
+            return True
+        if isinstance(e, ast.Attribute):
+            return _Inliner.simple(e.value)
+        if isinstance(e, ast.Subscript):
+            return _Inliner.simple(e.value) and isinstance(e.slice, (ast.Constant, ast.Name))
+        return False
+
+    def bind(self, fn, call, first):
+        """parameter -> argument expression, or None when the call does not fit the signature in a simple way"""
+        a = fn.args
+        if a.vararg or a.kwarg or a.kwonlyargs or a.posonlyargs or any(isinstance(x, ast.Starred) for x in call.args) or any(k.arg is None for k in call.keywords):
+            return None
+        params = [x.arg for x in a.args]
+        args = ([first] if first is not None else []) + list(call.args)
+        if len(args) > len(params):
+            return None
+        m = dict(zip(params, args))
+        for k in call.keywords:
+            if k.arg not in params or k.arg in m:
+                return None
+            m[k.arg] = k.value
+        defaults = dict(zip(params[len(params) - len(a.defaults):], a.defaults))
+        for p in params:
+            if p not in m:
+                if p not in defaults:
+                    return None
+                m[p] = defaults[p]
+        return m
+
+    @staticmethod
+    def body_of(fn):
+        b = list(fn.body)
+        if b and isinstance(b[0], ast.Expr) and isinstance(b[0].value, ast.Constant) and isinstance(b[0].value.value, str):
+            b = b[1:]
+        return b
+
+    @staticmethod
+    def fold_guards(stmts):
+        """`if c: return` + rest  ->  `if not c: rest` (guard-style early returns of a helper that returns nothing)"""
+        out = []
+        for i, st in enumerate(stmts):
+            if isinstance(st, ast.If) and not st.orelse and len(st.body) == 1 and isinstance(st.body[0], ast.Return) and st.body[0].value is None:
+                rest = _Inliner.fold_guards(stmts[i + 1:])
+                if rest is None:
+                    return None
+                if rest:
+                    out.append(ast.If(test=ast.UnaryOp(op=ast.Not(), operand=st.test), body=rest, orelse=[]))
+                return out
+            if isinstance(st, ast.Return):
+                if st.value is None and i == len(stmts) - 1:
+                    return out
+                return None
+            if any(isinstance(x, ast.Return) for x in ast.walk(st)):
+                return None
+            out.append(st)
+        return out
+
+    def instantiate(self, fn, mapping, caller_names, want_value):
+        """-> (statements, value expression or None) of the helper with parameters replaced; None when the shape is not supported"""
+        import copy
+        body = copy.deepcopy(self.body_of(fn))
+        value = None
+        if body and isinstance(body[-1], ast.Return) and body[-1].value is not None:
+            value = body[-1].value
+            body = body[:-1]
+        elif want_value:
+            return None
+        if any(isinstance(x, (ast.Yield, ast.YieldFrom, ast.Nonlocal, ast.Global, ast.FunctionDef, ast.Lambda)) for st in body for x in ast.walk(st)):
+            return None
+        stmts = self.fold_guards(body)
+        if stmts is None:
+            return None
+        # parameters: substitute simple arguments and arguments of parameters read at most once; others get a temporary named after the parameter
+        loads, stores = {}, set()
+        for st in stmts + ([ast.Expr(value=value)] if value is not None else []):
+            for x in ast.walk(st):
+                if isinstance(x, ast.Name):
+                    if isinstance(x.ctx, ast.Load):
+                        loads[x.id] = loads.get(x.id, 0) + 1
+                    else:
+                        stores.add(x.id)
+        pre = []
+        subst = {}
+        for p, arg in mapping.items():
+            if p in stores:
+                pre.append(ast.Assign(targets=[ast.Name(id=p, ctx=ast.Store())], value=arg))
+            elif self.simple(arg) or loads.get(p, 0) <= 1:
+                subst[p] = arg
+            else:
+                pre.append(ast.Assign(targets=[ast.Name(id=p, ctx=ast.Store())], value=arg))
+        if pre and not stmts and value is not None and want_value == 'expr':
+            return None
+        # locals of the helper that clash with names of the caller are suffixed
+        local = {n for n in stores if n not in mapping}
+        ren = {n: n + '_h' for n in local if n in caller_names}
+        class S(ast.NodeTransformer):
+            def visit_Name(self, node):
+                if node.id in subst and isinstance(node.ctx, ast.Load):
+                    return copy.deepcopy(subst[node.id])
+                if node.id in ren:
+                    node.id = ren[node.id]
+                return node
+        s = S()
+        stmts = [s.visit(st) for st in stmts]
+        if value is not None:
+            value = s.visit(value)
+        return pre + stmts, value
+
+    def run(self, fn, cls):
+        """expand helper calls inside one pinned function; repeated to a fixed point (helpers that call helpers), at most 4 rounds"""
+        qual = '%s.%s' % (cls, fn.name) if cls else fn.name
+        pinned_nested = self.known_nested.get(qual)
+        self.nested = {}
+        if pinned_nested is not None:
+            for n in ast.walk(fn):
+                if isinstance(n, ast.FunctionDef) and n is not fn and n.name not in pinned_nested:
+                    self.nested[n.name] = n
+        for _ in range(4):
+            before = self.count
+            names = {n.id for n in ast.walk(fn) if isinstance(n, ast.Name)}
+            self._block_pass(fn, cls, names)
+            self._expr_pass(fn, cls, names)
+            if self.count == before:
+                break
+        for name, h in list(self.nested.items()):
+            inside_h = {id(y) for y in ast.walk(h)}
+            if not any(isinstance(x, ast.Name) and x.id == name and id(x) not in inside_h for x in ast.walk(fn)):
+                for parent in ast.walk(fn):
+                    for field in ('body', 'orelse', 'finalbody'):
+                        b = getattr(parent, field, None)
+                        if isinstance(b, list) and h in b:
+                            b.remove(h)
+        self.nested = {}
+
+    def _blocks(self, node):
+        for field in ('body', 'orelse', 'finalbody'):
+            b = getattr(node, field, None)
+            if isinstance(b, list) and b and isinstance(b[0], ast.stmt):
+                yield b
+        for h in getattr(node, 'handlers', []) or []:
+            yield h.body
+
+    def _block_pass(self, fn, cls, names):
+        work = [fn]
+        while work:
+            node = work.pop()
+            if node is not fn and isinstance(node, ast.FunctionDef) and node.name in self.nested:
+                continue
+            for b in self._blocks(node):
+                i = 0
+                while i < len(b):
+                    st = b[i]
+                    call, kind = None, None
+                    if isinstance(st, ast.Expr) and isinstance(st.value, ast.Call):
+                        call, kind = st.value, 'stmt'
+                    elif isinstance(st, ast.Assign) and isinstance(st.value, ast.Call):
+                        call, kind = st.value, 'assign'
+                    elif isinstance(st, ast.Return) and isinstance(st.value, ast.Call):
+                        call, kind = st.value, 'return'
+                    if call is not None and self.helper_for(call, cls)[0] is None:
+                        call = None
+                    if call is None and isinstance(st, (ast.Expr, ast.Assign, ast.AugAssign, ast.Return)) and st.value is not None:
+                        # a helper call nested in the statement (an argument of another call, an operand): its statements are hoisted in
+                        # front of the statement and the call is replaced by the value it returns
+                        nested = [x for x in ast.walk(st.value) if isinstance(x, ast.Call) and self.helper_for(x, cls)[0] not in (None, fn)]
+                        if len(nested) == 1:
+                            h, first = self.helper_for(nested[0], cls)
+                            mp = self.bind(h, nested[0], first)
+                            r = self.instantiate(h, mp, names, True) if mp is not None else None
+                            if r is not None and r[0]:
+                                stmts, value = r
+                                target = nested[0]
+                                class R(ast.NodeTransformer):
+                                    def visit_Call(self, node):
+                                        if node is target:
+                                            return value
+                                        return self.generic_visit(node)
+                                st.value = R().visit(st.value)
+                                for x in stmts:
+                                    ast.copy_location(x, st)
+                                    ast.fix_missing_locations(x)
+                                ast.fix_missing_locations(st)
+                                b[i:i] = stmts
+                                i += len(stmts) + 1
+                                self.count += 1
+                                continue
+                    if call is not None:
+                        h, first = self.helper_for(call, cls)
+                        if h is not None and h is not fn:
+                            mp = self.bind(h, call, first)
+                            if mp is not None:
+                                r = self.instantiate(h, mp, names, kind != 'stmt')
+                                if r is not None:
+                                    stmts, value = r
+                                    if kind == 'stmt':
+                                        new = stmts
+                                    elif kind == 'assign':
+                                        new = stmts + [ast.Assign(targets=st.targets, value=value)]
+                                    else:
+                                        new = stmts + [ast.Return(value=value)]
+                                    for x in new:
+                                        ast.copy_location(x, st)
+                                        ast.fix_missing_locations(x)
+                                    b[i:i + 1] = new or [ast.copy_location(ast.Pass(), st)]
+                                    self.count += 1
+                                    continue
+                    i += 1
+                for stt in b:
+                    work.append(stt)
+
+    def _expr_pass(self, fn, cls, names):
+        inl = self
+        class E(ast.NodeTransformer):
+            def visit_FunctionDef(self, node):
+                self.generic_visit(node)
+                return node
+            def visit_Call(self, node):
+                self.generic_visit(node)
+                h, first = inl.helper_for(node, cls)
+                if h is None or h is fn:
+                    return node
+                body = inl.body_of(h)
+                if len(body) != 1 or not isinstance(body[0], ast.Return) or body[0].value is None:
+                    return node
+                mp = inl.bind(h, node, first)
+                if mp is None:
+                    return node
+                r = inl.instantiate(h, mp, names, 'expr')
+                if r is None or r[0]:
+                    return node
+                inl.count += 1
+                return ast.copy_location(r[1], node)
+        E().visit(fn)
+        ast.fix_missing_locations(fn)
+
+def inline_helpers(modname, tree, known, known_nested=None):
+    inl = _Inliner(modname, tree, known)
+    inl.known_nested = known_nested or {}
+    for n in tree.body:
+        if isinstance(n, ast.FunctionDef) and n.name in known:
+            inl.run(n, None)
+        elif isinstance(n, ast.ClassDef):
+            for m in n.body:
+                if isinstance(m, ast.FunctionDef) and '%s.%s' % (n.name, m.name) in known:
+                    inl.run(m, n.name)
+    # a helper with no call left is dropped from the tree the rules see (its code now stands where it was called)
+    if inl.count:
+        def referenced(name, skip):
+            for x in ast.walk(tree):
+                if x is skip:
+                    continue
+                if isinstance(x, ast.Name) and x.id == name and not _inside(x, skip):
+                    return True
+                if isinstance(x, ast.Attribute) and x.attr == name and not _inside(x, skip):
+                    return True
+            return False
+        inside = {}
+        def _inside(x, fn):
+            if id(fn) not in inside:
+                inside[id(fn)] = {id(y) for y in ast.walk(fn)}
+            return id(x) in inside[id(fn)]
+        for name, fn in list(inl.funcs.items()):
+            if not referenced(name, fn):
+                tree.body.remove(fn)
+        for (cls, name), (fn, kind) in list(inl.methods.items()):
+            if not referenced(name, fn):
+                for c in tree.body:
+                    if isinstance(c, ast.ClassDef) and c.name == cls and fn in c.body:
+                        c.body.remove(fn)
+    return inl.count
